@@ -119,10 +119,13 @@ def variants(cfgname, rng):
         r = base_request(cfgname, rng, "chunked")
         r.chunks = [Chunk(b"d" * n)]
         yield ("chunk-size", r.render(), exp, None, 6, None)
+    # the concatenated body of a chunked request is limited by max_content_length whatever the division into chunks
+    # (one chunk, first chunk alone over the limit, last chunk crossing it, many small ones)
     for n, exp in (((5, ok), (6, "INVALID code=413")) if chunk_ok else ()):
-        r = base_request(cfgname, rng, "chunked")
-        r.chunks = [Chunk(b"abc"), Chunk(b"d" * (n - 3))]
-        yield ("chunked-total", r.render(), exp, 5, None, None)
+        for split in ([n], [3, n - 3], [1, n - 1], [n - 1, 1], [2, 2, n - 4], [1] * n):
+            r = base_request(cfgname, rng, "chunked")
+            r.chunks = [Chunk(bytes([97 + (j % 26)]) * k) for j, k in enumerate(split)]
+            yield ("chunked-total", r.render(), exp, 5, None, None)
     # 12 chunk syntax
     for bad in () if not chunk_ok else (b"g\r\n", b"\r\n", b"4 \r\n", b"4x\r\n", b"00000000000000004\r\n", b"ffffffffffffffff\r\n", b";x\r\n", b"-4\r\n"):
         data = b"POST / HTTP/1.1\r\nHost: a\r\nTransfer-Encoding: chunked\r\n\r\n" + bad + b"abcd\r\n0\r\n\r\n"
